@@ -4,6 +4,7 @@ import (
 	"context"
 	"errors"
 	"fmt"
+	"math"
 	"math/big"
 	"reflect"
 	"strconv"
@@ -357,6 +358,10 @@ func numEqualsNumeral(numV reflect.Value, s string) bool {
 		// integer part: round the exact value instead
 		if r, ok := new(big.Rat).SetString(s); ok {
 			f, _ = r.Float64()
+			if math.IsInf(f, 0) {
+				// beyond the float64 range: no decimal numeral denotes an infinity
+				return false
+			}
 		}
 	}
 	switch numV.Kind() {
